@@ -2258,3 +2258,17 @@ variant_multi('b-awaitable-response-shielded', ['C10', 'C09', 'C01'], [
 variant('t-awaitable-response-through-a-local', ['C10', 'C01'], 'rsocket/awaitable/awaitable_rsocket.py',
         "        return await self._rsocket.request_response(payload)",
         "        response = await self._rsocket.request_response(payload)\n        return response", kind='twin')
+
+# C06.a replenishment of the Rx subscribers
+FRP = 'rsocket/reactivex/from_rsocket_publisher.py'
+variant('b-rx-observer-subscriber-never-replenishes', ['C06', 'C20'], FRP,
+        "                self.subscription.request(self.limit_rate)\n", "                pass\n",
+        ('C06.a', 'RxSubscriberFromObserver'))
+variant('b-rx-trigger-does-not-wait', ['C06', 'C20'], FRP,
+        "            await subscriber.get_next_n.wait()\n", "            await asyncio.sleep(0)\n",
+        ('C06.a', '_trigger_next_request_n'))
+variant('b-rx-trigger-does-not-clear', ['C06', 'C20'], FRP,
+        "            subscriber.get_next_n.clear()\n", "", ('C06.a', '_trigger_next_request_n'))
+variant('t-rx-trigger-clears-before-requesting', ['C06', 'C20'], FRP,
+        "            subscriber.subscription.request(limit_rate)\n            subscriber.get_next_n.clear()\n",
+        "            subscriber.get_next_n.clear()\n            subscriber.subscription.request(limit_rate)\n", kind='twin')
